@@ -28,6 +28,7 @@ pub fn property() -> Property {
             (Box::new(ShapeFam), 6_000, 150_000),
             (Box::new(AuthFam), 3_000, 60_000),
             (Box::new(ServerFam), 300, 6_000),
+            (Box::new(OrderFam), 2_000, 50_000),
         ],
     }
 }
@@ -309,6 +310,84 @@ impl Family for ServerFam {
         res?;
         out.nt(true);
         out.class("server-writes");
+        Ok(out)
+    }
+}
+
+// ------------------------------------------------------------------------------------------
+// family `order`: concurrent writers, the k-th packet on the wire follows line k
+
+use crate::props::c01::SchemeSel;
+use crate::props::c11::{self, TOp, TaskPlan, WritersCase};
+
+#[derive(Clone, Debug, Serialize, Deserialize)]
+pub struct OrderCase {
+    pub n_lines: u8,
+    pub tasks: Vec<TaskPlan>,
+    pub yields: Vec<u8>,
+}
+
+pub struct OrderFam;
+
+fn order_size(k: u32) -> usize {
+    2000 + 500 * k as usize
+}
+
+impl Family for OrderFam {
+    type Case = OrderCase;
+    fn name(&self) -> &'static str {
+        "order"
+    }
+    fn strategy(&self, _tier: Tier) -> BoxedStrategy<OrderCase> {
+        let op = prop_oneof![4 => (1usize..300).prop_map(TOp::Frame), 2 => (1usize..300).prop_map(TOp::Send), 1 => Just(TOp::Heart)];
+        let task = (proptest::bool::weighted(0.85), proptest::collection::vec(op, 1..4), 0u8..4)
+            .prop_map(|(opens, ops, start_yields)| TaskPlan { opens, ops, start_yields });
+        (3u8..12, proptest::collection::vec(task, 2..=3), c11::yields_strategy())
+            .prop_map(|(n_lines, tasks, yields)| OrderCase { n_lines, tasks, yields })
+            .boxed()
+    }
+    fn run(&self, case: &OrderCase, _cx: &CaseCtx) -> CaseResult {
+        let mut out = Outcome::new();
+        let n = case.n_lines as u32;
+        let mut lines = Vec::new();
+        for k in 1..=n {
+            lines.push((k, vec![PartGen::Range(order_size(k) as u64, order_size(k) as u64)]));
+        }
+        let sg = SchemeGen { stop: n + 1, lines, crlf: false, junk_line: false };
+        let wc = WritersCase {
+            scheme: SchemeSel::Gen(sg),
+            tasks: case.tasks.clone(),
+            c2s: PipeParams::default(),
+            yields: case.yields.clone(),
+            draw_seed: 1,
+        };
+        let run = c11::run_concurrent(&wc)?;
+        c11::check_wire(&run)?;
+        let lens: Vec<usize> = run.writes.iter().map(|w| w.1).collect();
+        let padded = lens.len().min(n as usize);
+        for (i, len) in lens.iter().take(padded).enumerate() {
+            let k = i as u32 + 1;
+            ensure!(
+                *len == order_size(k),
+                "C05.order",
+                "packet #{k} on the wire is {len} bytes long, line {k} prescribes exactly {} (write lengths in wire order: {:?})",
+                order_size(k),
+                &lens[..lens.len().min(14)]
+            );
+        }
+        for len in lens.iter().skip(n as usize) {
+            ensure!(
+                *len < 2000,
+                "C05.stop",
+                "a packet beyond stop={} was padded: write of {len} bytes (write lengths: {:?})",
+                n + 1,
+                &lens[..lens.len().min(20)]
+            );
+        }
+        let pre = run.sched.yields_taken > 0;
+        out.nt(pre && padded >= 2);
+        out.class_if(pre, "forced-preemption");
+        out.class_if(lens.len() > n as usize, "ran-past-stop");
         Ok(out)
     }
 }
